@@ -1,4 +1,5 @@
 import SlotVerif.Proofs.Rules
+import SlotVerif.Proofs.Eval
 /-!
 # C03 — Rewriting with valid rules preserves meaning, including under binders
 
@@ -7,9 +8,16 @@ Model algebra: `Model/Eval.lean` (𝔽₇ with `sum` and `let` binders).  Rule s
 in the C03 runs is valid in the model** (for every interpretation of its pattern variables as
 functions of the environment, under its explicit side conditions and the scoping facts the matcher
 guarantees), and the deliberately wrong rules are invalid.  The rule texts are compared with the
-strings given to `Rewrite::new` on every run.  That the *e-graph* then keeps every class
-single-valued is validated per run by evaluating every e-node of every class in Lean; the theorem
-connecting rule validity to `Cong` (`cong_eval`) is pending.
+strings given to `Rewrite::new` on every run.  `cong_eval`: **the model algebra
+respects the specification** — if every asserted equation holds in the model (under every binder
+stack and environment), so does every equation derivable from them in `Cong` (renaming,
+congruence under the `sum`/`let` binders included; `Proofs/Eval.lean`).  Hence a class of the
+e-graph in which two members evaluate differently is a *certified* unsoundness
+(`not_cong_of_eval_ne`), and a slot the specification calls redundant cannot influence the value
+(`redundant_eval`).  That the *e-graph* keeps every class single-valued is validated per run by
+evaluating every e-node of every class in Lean.  Not a theorem: that an instance of a valid rule
+(`evalP` semantics of patterns) holds as an equation between terms (`eval`) — the instantiation
+lemma linking `Rules.evalP` to `Eval.eval` is pending.
 -/
 namespace SV.C03
 open SV SV.Rules
@@ -46,5 +54,53 @@ theorem sum_factor_needs_condition : ¬ (badPool[0]'(by decide)).Valid := by
   have := h (fun _ env => if env "x" = 1 then 1 else 0) (by intro c hc; simp [badPool] at hc) (fun _ => 0)
   simp only [badPool, List.getElem_cons_zero, evalP, Eval.sum7, Env.set] at this
   revert this; decide
+
+
+/-- **the model respects the specification**: equations that hold in the model only derive equations that hold in
+the model — through renaming and through congruence under the summation and let binders -/
+theorem cong_eval {E : List (Term × Term)} (hE : Eval.Holds E) {t u : Term} (h : Cong E t u)
+    (benv : List Eval.F) (env : Nat → Eval.F) : Eval.eval benv env t = Eval.eval benv env u :=
+  Eval.cong_evalT hE h benv env
+
+/-- a differing value certifies that an equality is not implied by equations that hold in the model -/
+theorem not_cong_of_eval_ne {E : List (Term × Term)} (hE : Eval.Holds E) {t u : Term} (benv : List Eval.F)
+    (env : Nat → Eval.F) (hne : Eval.eval benv env t ≠ Eval.eval benv env u) : ¬ Cong E t u :=
+  fun h => hne (cong_eval hE h benv env)
+
+/-- a redundant slot does not influence the value -/
+theorem redundant_eval {E : List (Term × Term)} (hE : Eval.Holds E) {t : Term} {s : Nat}
+    (hr : Redundant E t s) (s' : Nat) (hs' : Term.isBvar s' = false) (hfresh : s' ∉ Term.freeOcc t)
+    (benv : List Eval.F) (env : Nat → Eval.F) (v : Eval.F) :
+    Eval.eval benv (Eval.upd env s v) t = Eval.eval benv env t := by
+  -- t = t[s := s'] in the spec, for the fresh s'
+  have hc := hr.2 s' hs' hfresh
+  have hnm : NameMap (fun x => if x = s then s' else x) := by
+    intro x hx; by_cases h : x = s <;> simp [h, hs', hx]
+  -- evaluate both sides of t = t[s := s'] in two environments that agree off s, s'
+  have e1 := cong_eval hE hc benv (Eval.upd (Eval.upd env s v) s' (env s))
+  have e2 := cong_eval hE hc benv (Eval.upd env s' (env s))
+  unfold Eval.eval at e1 e2 ⊢
+  rw [Eval.evalT_mapFree _ hnm] at e1 e2
+  -- the renamed sides coincide: s is read at s', which holds `env s` in both
+  have hsame : Eval.evalT t benv (fun x => Eval.upd (Eval.upd env s v) s' (env s) (if x = s then s' else x)) =
+      Eval.evalT t benv (fun x => Eval.upd env s' (env s) (if x = s then s' else x)) := by
+    apply Eval.evalT_ext
+    intro x hx
+    by_cases h : x = s
+    · simp [h, Eval.upd]
+    · have hx' : x ≠ s' := fun he => hfresh (he ▸ hx)
+      simp [h, Eval.upd, hx']
+  -- and the original sides are evaluated in environments that differ from the wanted ones only at the fresh s'
+  have hl : Eval.evalT t benv (Eval.upd (Eval.upd env s v) s' (env s)) = Eval.evalT t benv (Eval.upd env s v) := by
+    apply Eval.evalT_ext
+    intro x hx
+    have hx' : x ≠ s' := fun he => hfresh (he ▸ hx)
+    simp [Eval.upd, hx']
+  have hr2 : Eval.evalT t benv (Eval.upd env s' (env s)) = Eval.evalT t benv env := by
+    apply Eval.evalT_ext
+    intro x hx
+    have hx' : x ≠ s' := fun he => hfresh (he ▸ hx)
+    simp [Eval.upd, hx']
+  rw [← hl, e1, hsame, ← e2, hr2]
 
 end SV.C03
